@@ -77,7 +77,9 @@ def gen_c09_spec(rng: random.Random) -> Dict[str, Any]:
         names = names[:3] + ["_tenant", "__s", "X-Taskiq-origin", "x-request-id", "_retries_seen", "X-Taskiq-requeue-at"]
     declared = gen_labels(rng, names, rng.randint(0, 4))
     use_retry = rng.random() < 0.6
-    shared = rng.random() < 0.2
+    shared: Any = rng.random() < 0.2
+    if shared and rng.random() < 0.4:
+        shared = "nodefault"  # a shared task whose shared broker was never given a default: every send names its broker
     ops = []
     for i in range(rng.randint(2, 8)):
         kind = rng.choice(["kiq", "kiq", "labels", "labels", "labels", "task_id", "broker", "labels+task_id", "reuse", "reuse+labels",
@@ -96,7 +98,8 @@ def gen_c09_spec(rng: random.Random) -> Dict[str, Any]:
         op["acts"] = acts if kind != "broker" else []
         ops.append(op)
     fmt = rng.choice(FORMATS)
-    if fmt == "jsonformatter":
+    fmt2 = rng.choice([fmt] + FORMATS)  # the wire format of the second broker (a per-send override target)
+    if "jsonformatter" in (fmt, fmt2):
         # JSONFormatter encodes with pydantic's JSON text encoder, which needs valid UTF-8 (same mechanism as C19's
         # F9): lone surrogates are generated for the serializer-based formats only
         def _clean(d: Dict[str, Any]) -> None:
@@ -107,7 +110,7 @@ def gen_c09_spec(rng: random.Random) -> Dict[str, Any]:
         for op_ in ops:
             _clean(op_.get("labels", {}))
     spec: Dict[str, Any] = {
-        "declared": declared, "ops": ops, "fmt": fmt, "use_retry": use_retry, "shared": shared,
+        "declared": declared, "ops": ops, "fmt": fmt, "fmt2": fmt2, "use_retry": use_retry, "shared": shared,
         "retry_labels": rng.choice(["declared", "op"]),
         "no_result_on_retry": rng.random() < 0.5,
         "A": rng.choice([1, 2, None]),
@@ -152,7 +155,7 @@ def run_c09(spec: Dict[str, Any]) -> "tuple[List[Violation], Dict[str, Any]]":
         broker.result_backend = RecordingBackend(sc)
         set_format(broker, spec["fmt"])
         broker2 = PlainBroker()
-        set_format(broker2, spec["fmt"])
+        set_format(broker2, spec.get("fmt2", spec["fmt"]))
         acts: Dict[str, List[str]] = {}
 
         class RecMw(TaskiqMiddleware):
@@ -200,7 +203,8 @@ def run_c09(spec: Dict[str, Any]) -> "tuple[List[Violation], Dict[str, Any]]":
             from taskiq.brokers.shared_broker import AsyncSharedBroker
 
             shared = AsyncSharedBroker()
-            shared.default_broker(broker)
+            if spec["shared"] != "nodefault":
+                shared.default_broker(broker)
             task = shared.register_task(lab_task, task_name="lab_task", **declared)
             # global registry is class-level: clean up at the end
         else:
@@ -230,6 +234,8 @@ def run_c09(spec: Dict[str, Any]) -> "tuple[List[Violation], Dict[str, Any]]":
                 k = k.with_task_id(op["task_id"])
             if op["kind"] == "broker":
                 k = k.with_broker(broker2)
+            elif spec["shared"] == "nodefault":
+                k = k.with_broker(broker)
             n1, n2 = len(sc.kicked), len(broker2.sent)
             try:
                 if op["kind"].startswith("created_time"):
@@ -267,7 +273,8 @@ def run_c09(spec: Dict[str, Any]) -> "tuple[List[Violation], Dict[str, Any]]":
                 v.append(Violation("task-id-reused", f"op {i}: task id {bm.task_id} already used by another send"))
             ids_seen.add(bm.task_id)
             try:
-                dm = broker.formatter.loads(bm.message)
+                # (the receiving broker's own wire format is what its workers decode with)
+                dm = (broker2 if op["kind"] == "broker" else broker).formatter.loads(bm.message)
                 dm.parse_labels()
             except Exception as exc:  # noqa: BLE001
                 v.append(Violation("sent-message-unparsable", f"op {i} ({op['kind']}): the message sent with labels {jsonable(expect)} cannot be decoded: {exc!r}"))
@@ -280,6 +287,21 @@ def run_c09(spec: Dict[str, Any]) -> "tuple[List[Violation], Dict[str, Any]]":
             if op["kind"] != "broker":
                 acts[bm.task_id] = list(op["acts"])
             send_info.append({"i": i, "id": bm.task_id, "expect": expect, "op": op})
+        if spec["shared"] == "nodefault":
+            # the per-send broker choices above were just that: the shared task still has no broker of its own
+            n1, n2 = len(sc.kicked), len(broker2.sent)
+            try:
+                await task.kiq("probe")
+                probe = "sent"
+            except Exception as exc:  # noqa: BLE001
+                probe = type(exc.__cause__ or exc).__name__
+            obs["nodefault_probes"] = 1
+            if probe == "sent" or len(sc.kicked) != n1 or len(broker2.sent) != n2:
+                v.append(Violation("broker-override-leak", f"a plain send of a shared task without default broker went out "
+                                   f"(main={len(sc.kicked) - n1} other={len(broker2.sent) - n2}, outcome {probe}): an earlier "
+                                   f".with_broker() override outlived its send"))
+                if len(sc.kicked) != n1:
+                    sc.kicked.pop()
         # worker side
         MonReceiver.sc = sc
         receiver = MonReceiver(broker=broker, executor=executor, max_async_tasks=spec["A"], run_startup=False,
